@@ -22,9 +22,10 @@ ASSUMPTIONS = ["H: as C07"]
 def tagger(c, im):
     asked = sum(1 for t in im for o in t['outs'] if o[0] == 'a')
     answers = sorted({(op[3] or 'later')[0] for op in c['ops'] if op[0] == 'strm' and len(op) > 3 and op[3]} | {'ans:' + op[2][0] for op in c['ops'] if op[0] == 'ans'})
-    vias = sum(1 for op in c['ops'] if op[0] in ('via', 'viap'))
+    vias = sum(1 for op in c['ops'] if op[0] in ('via', 'viap', 'viaw'))
+    webs = sum(1 for op in c['ops'] if op[0] == 'viaw')
     lost = sum(1 for op in c['ops'] if op[0] == 'vialost')
-    return (answers + ['asked=%d' % min(asked, 3), 'via=%d' % min(vias, 3), 'via-failed=%d' % min(lost, 2)]), (asked >= 2 or vias >= 2)
+    return (answers + ['asked=%d' % min(asked, 3), 'via=%d' % min(vias, 3), 'via-failed=%d' % min(lost, 2), 'via-web-agent=%d' % min(webs, 2)]), (asked >= 2 or vias >= 2)
 
 
 def project(tr):
@@ -225,6 +226,11 @@ def corpus():
          'ops': [['att', 0], ['ack', True], ['via', 0, '127.0.0.1', 5001], ['viap', 0, '127.0.0.1', 5002], ['viap', 0, '127.0.0.1', 5003],
                  ['via', 1, '127.0.0.1', 5004], ['vialost', '127.0.0.1', 5002], new(1, None), ['ack', True], new(4, None), ['ack', True],
                  ['vialost', '127.0.0.1', 5003], new(2, None), ['ack', True], new(3, None), ['ack', True]]},
+        # two HTTP requests to the same origin through one Circuit.web_agent(): each is a connection of its own, from its own local
+        # port, and each one's stream goes to that circuit; a later unrelated stream from the first port is left to Tor
+        {'snap_c': ['5 BUILT %s PURPOSE=GENERAL' % r1], 'snap_s': [], 'pre': [],
+         'ops': [['att', 0], ['ack', True], ['viaw', 0, '127.0.0.1', 5001], new(1, None), ['ack', True], ['viaw', 0, '127.0.0.1', 5002], new(2, None), ['ack', True],
+                 ['strm', '1 CLOSED 0 example.com:80 REASON=DONE', [], None], ['strm', '3 NEW 0 example.com:80 SOURCE_ADDR=127.0.0.1:5001 PURPOSE=USER', [], None], ['ack', True]]},
     ]
 
 
